@@ -242,12 +242,13 @@ prop("C07", "fault_enumeration",
 prop("C16", "fault_enumeration",
      "W1: 1-8 files (many small or few large, 1-4 threads), with or without transport and poll faults; the stop request (graceful or immediate) is delivered "
      "after a drawn number of controller steps - 0 for a one-shot run - i.e. at a drawn point of the request / wait history, typically with requests in "
-     "flight or files awaiting their poll; then requests are served without faults; oracle: Start returns within 30 s (immediate) or the C03 bound + 20 min "
+     "flight or files awaiting their poll; then requests are served without faults, except that in a quarter of the runs the next 1-12 data requests have a byte "
+     "flipped (validation failures in flight while stopping); oracle: Start returns within 30 s (immediate) or the C03 bound + 20 min "
      "(graceful) of simulated time; afterwards every version whose positive verdict reached the sender is marked done in the persisted cache (re-read from "
      "disk), and after a graceful stop without faults everything the scans found is delivered or held validated; non-trivial = stop with a request in flight "
      "or a file awaiting its poll",
      [dict(pkg="stagex", test="TestC16Sim", world="W1", quick=1200, thorough=40000, per_proc=60, shrink_runs=150,
-           required_classes=["graceful", "immediate", "one-shot", "stop-with-request-in-flight"])],
+           required_classes=["graceful", "immediate", "one-shot", "stop-with-request-in-flight", "validation-failures-after-stop"])],
      SIM_ASSUME + ["deadlocks that need a particular interleaving of runnable sender goroutines between two requests are found only by repetition"])
 
 WIRE_ASSUME = [
